@@ -226,13 +226,23 @@ def writer_contract(ctx):
               "source is not encoded to bytes before being handed to the writer", "source.encode(...) precedes the writer")
 
 
+def in_try_handling_(node):
+    from .common import in_try_handling
+    return in_try_handling(node, "OSError", "FileExistsError", "Exception", "EnvironmentError")
+
+
 @rule("C15.verify-directory", min_instances=2)
 def verify_directory(ctx):
     """verify_directory's retry loop is bounded and exits when the directory exists"""
     db = ctx.db
     fn = db.func("util.verify_directory")
     wl = [n for n in walk_func(fn) if isinstance(n, ast.While)]
-    ctx.require(wl, "verify_directory has no loop (anchor)")
+    if not wl:
+        mk = [c for c in walk_func(fn) if isinstance(c, ast.Call) and dotted(c.func) in ("os.makedirs", "os.mkdir")]
+        tolerant = any(any(k.arg == "exist_ok" and const(k.value) is True for k in c.keywords) for c in mk) or any(in_try_handling_(c) for c in mk)
+        ctx.check(tolerant, "concurrent-creation", db.where(fn), "verify_directory checks for the directory and then creates it with no tolerance for a concurrent creator: of several processes constructing the same Template all but one fail with FileExistsError", "makedirs tolerates an existing directory")
+        ctx.ok("bounded", db.where(fn), "no retry loop")
+        return
     w = wl[0]
     ctx.check("exists" in src(w.test) and isinstance(w.test, ast.UnaryOp) and isinstance(w.test.op, ast.Not), "exit-condition", db.where(w), "loop condition is %s" % src(w.test), "loops while the directory does not exist")
     incs = [n for n in ast.walk(w) if isinstance(n, ast.AugAssign) and isinstance(n.op, ast.Add)]
